@@ -76,14 +76,15 @@ def run(case, ctx, rng):
         else: K = pattern(rng, 8, kc)
         ctx.cls((kc, case.get('hex', ''), case.get('bit', ''), case.get('j', 0) % 7))
         det = dict(K=K)
-        before = (list(map(int, table_M1())), list(map(int, table_M2()[0])), list(map(int, table_M3())))
+        before = call(lambda: (list(map(int, table_M1())), list(map(int, table_M2()[0])), list(map(int, table_M3()))))
         net = call(network, K)
         if is_exc(net):
             ctx.eq('wb==FIPS46-3', net, 'a table network', **det); return
         KT, M1, M2, M3, W = net
         shapes(ctx, KT, M1, M2, M3, det)
-        after = (list(map(int, table_M1())), list(map(int, table_M2()[0])), list(map(int, table_M3())))
-        ctx.check('M-tables-key-independent', before == after == (list(map(int, M1)), list(map(int, M2)), list(map(int, M3))), 'changed', 'identical for every key', **det)
+        after = call(lambda: (list(map(int, table_M1())), list(map(int, table_M2()[0])), list(map(int, table_M3()))))
+        ctx.check('M-tables-key-independent', not is_exc(before) and not is_exc(after) and before == after == (list(map(int, M1)), list(map(int, M2)), list(map(int, M3))),
+                  after if is_exc(after) else (before if is_exc(before) else 'changed'), 'identical for every key', **det)
         E = DES(K)
         if case.get('j', 0) % 2 == 0:
             call(E.dec, b'short'); call(E.enc, b'123456789')          # refused calls must not disturb the comparison object
